@@ -839,6 +839,29 @@ def _gen_session(rng, model, params, index):
                 i = j + 1
             else:
                 i += 1
+    if params.get("c09"):
+        # batch vs one-at-a-time is only defined for modifications at
+        # distinct places (same-offset order is a registration-order matter)
+        from . import driver
+
+        seen_loc = set()
+        keep = []
+        for o in ops:
+            if o["k"] in ("insfn", "reg"):
+                continue
+            try:
+                exp = driver.expand_op(model, o)
+            except Exception:
+                continue
+            locs = set()
+            for key, off, length, _ in exp:
+                locs.add((key, off))
+                locs.add((key, off + length))
+            if locs & seen_loc:
+                continue
+            seen_loc |= locs
+            keep.append(o)
+        ops[:] = keep
     _avoid_ambiguous(model, ops)
     if any(o["k"] in ("del", "delblock", "rep", "delfn") for o in ops):
         # deleting code may drop the directives that define the CFA; a
